@@ -60,9 +60,17 @@ def random_case(rng, L):
             am = idlist(ids, []); ac = idlist(ids, aconds)
             acts.append('(mkAction %d %s %s %s)' % (al.get(rng, rng.randrange(4), consume), am, ac, lst(binds)))
         cfg[(c, 0)] = spec(acts, pad=rng.choice([None, None, 0]))
-    steps = [sop(spawn(0, menu)), frame(raw(pads=[pad(0)]))]
-    for _ in range(L):
+    # some contexts are created later, while inputs are held: their bindings start suppressed (C08), and the
+    # suppression test itself must not disturb what is hidden from the contexts evaluated after them
+    late = [c for c in menu if rng.random() < 0.4] if len(menu) > 1 else []
+    if len(late) == len(menu): late = late[1:]
+    steps = [sop(spawn(0, [c for c in menu if c not in late])), frame(raw(pads=[pad(0)]))]
+    for i in range(L):
         steps.append(frame(rawall(rng, 0.7)))
+        if late and i >= 1 and rng.random() < 0.5:
+            steps.append(sop(insert(0, late.pop())))
+        elif i == L // 2 and rng.random() < 0.2:
+            steps.append(sop(REBUILD))
     return scenario(menu, [0], cfg, steps)
 
 def cases(tier, rng):
@@ -77,6 +85,20 @@ def cases(tier, rng):
                     for cp, lp in pads_:
                         if same_ctx and cp != lp: continue
                         yield (consumer_case(rng, cin, sc, consume, FAMILY, same_ctx, lp, cp, 3), 'relation-classes')
+    for cin, held in ((key(1), dict(keys=[1])), (mbutton(0), dict(mbuttons=[0])), (key(1, CONTROL), dict(keys=[1, 102])), (pbutton(0), dict(pads=[pad(0, [0])]))):
+        for mid_inputs in ([key(3)], [key(3), key(2)], [mbutton(1), key(3)], [key(2), cin]):
+            for how in ('insert', 'rebuild'):
+                ids = Ids(); al = Alloc()
+                high = action(ids, al.get(rng, 0, True), [bind(ids, cin, [PROBE], [])])
+                mid = [action(ids, al.get(rng, j % 4, j % 2 == 0), [bind(ids, inp, [PROBE], [])]) for j, inp in enumerate(mid_inputs)]
+                low = [action(ids, al.get(rng, 1, False), [bind(ids, cin, [PROBE], [])]), action(ids, al.get(rng, 2, False), [bind(ids, key(2), [PROBE], [])])]
+                cfg = {(0, 0): spec([high]), (4, 0): spec(mid), (2, 0): spec(low)}          # priorities 30 > 10 > -10
+                hk = dict(held); hk.setdefault('pads', [pad(0)])
+                steps = [sop(spawn(0, [0, 2] if how == 'insert' else [0, 4, 2])), frame(raw(pads=[pad(0)])), frame(raw(**hk)), frame(raw(**hk))]
+                steps.append(sop(insert(0, 4) if how == 'insert' else REBUILD))
+                hk2 = dict(hk); hk2['keys'] = sorted(set(hk.get('keys', []) + [2]))
+                steps += [frame(raw(**hk)), frame(raw(**hk2)), frame(raw(**hk)), frame(raw(pads=[pad(0)])), frame(raw(**hk2))]
+                yield (scenario([0, 2, 4], [0], cfg, steps), 'late-context')
     for _ in range(2500 if tier == 'thorough' else 250):
         yield (random_case(rng, rng.randint(3, 8)), 'random')
 
@@ -87,7 +109,7 @@ STAGES = [dict(name='consumption', mode='app', coq='Check.C05w', cases=cases, no
                exhaustive={'thorough': True, 'quick': True},
                rule='a consuming (or non-consuming) action on each of 7 inputs (Ctrl+K, K, Ctrl+mouse button, motion, Shift+wheel, gamepad button, gamepad axis) whose scripted final state is Fired / Ongoing / None / mixed, '
                     'followed - in the same context or in a lower-priority one, with equal or different gamepad settings - by probed bindings of all 17 relation classes (same key, same key other modifiers, '
-                    'other key needing the used modifier, other modifier, other devices); an idle frame and a further frame check that nothing stays hidden; random mixes of 2-4 contexts with 1-3 actions of 1-3 '
+                    'other key needing the used modifier, other modifier, other devices); an idle frame and a further frame check that nothing stays hidden; a context with unrelated, partly released inputs inserted or rebuilt between a consuming higher-priority context and a lower-priority listener while the contested input is held; random mixes (some contexts created late, rebuilds) of 2-4 contexts with 1-3 actions of 1-3 '
                     'bindings and scripted conditions at both levels. non-trivial = some action fires; distinct = distinct scenario text')]
 CLAUSES = {1: 'an input related to one consumed earlier in the frame did not read as inactive', 2: 'a read differs from the raw input although nothing related to it was consumed before it in this frame (earlier actions affected, hidden without consumption, or hidden across frames)',
            8: 'panic', 9: 'malformed trace', 10: 'panic'}
